@@ -35,6 +35,7 @@ def file_name(lang, crate):
 
 
 STYLE_TICK = [0]
+CONST_CRATE = [False]
 
 
 FORCED = {"use": 0.2, "use-group": 0.5, "glob": 0.6, "as": 0.7, "use-reexport": 0.8, "qualified-in-generic": 0.9}
@@ -121,6 +122,12 @@ def make_workspace(rng, ncrates, force=None):
         top = c if rng.random() < 0.75 else "outer%d/src/%s" % (len(files), c)
         files.append(dict(crate=c, rel="%s/src/%slib.rs" % (top, sub), file=f, owned=mine, ext=ext, style=style))
         imports_truth[c] = ext
+    if CONST_CRATE[0]:
+        # a crate whose only shared items are constants (the back ends that write constants give it a module of its own)
+        cf = {"attrs": [], "items": [{"kind": "const", "attrs": [m_path("typeshare")], "ident": nm, "ty": t_path(ty), "expr_text": ex, "init": init}
+                                     for nm, ty, ex, init in (("MAX_FRAME_BYTES", "u32", "65536", ("i", 65536, "")), ("MAX_NAME_LEN", "u8", "64", ("i", 64, "")))]}
+        files.append(dict(crate="wire-limits", rel="wire-limits/src/lib.rs", file=cf, owned=[], ext=[], style={}))
+        crates = crates + ["wire-limits"]
     return crates, files, g
 
 
@@ -190,7 +197,10 @@ def run(check):
         else:
             lang, force = LANGS[w % 6], None
             ncr = rng.randint(1, 5)
+        CONST_CRATE[0] = lang in ("typescript", "go", "python") and w % 3 == 0
         crates, files, g = make_workspace(rng, ncr, force)
+        if CONST_CRATE[0]:
+            check.count("workspace-with-const-only-crate")
         # the workspace itself may be checked out below a directory called `src` (~/src/project/…)
         root = rng.choice(["ws", "ws", "src/ws", "code/src/proj"])
         with Scratch() as sc:
